@@ -54,7 +54,17 @@ THEOREMS = THEOREMS + [
     ("C05_dispatch_list", """DISPATCH_SRC = [ANames [t_free; t_skip]; ANames [t_ftyp]; AGuardNoFtyp; ANames [t_mdat]; ANames [t_moov];
                   ANames [t_meta; t_meco]; AAny]"""),
 ]
-REQUIRES_FOR = {"C05_dispatch_is_source": _DREQ, "C05_step_dispatch_is_source": _DREQ, "C05_dispatch_list": _DREQ}
+_BREQ = ["From Coq Require Import List NArith Bool.", "From Coq.Strings Require Import Byte.",
+         "From MS Require Import Base.Bytes Base.Outcome Mp4.Header Mp4.Box Gen.Mp4BoxTypes Mp4.BoxTypesProofs Props.C05d.",
+         "Import ListNotations."]
+THEOREMS = THEOREMS + [
+    ("C05_accessor_chain_is_source", """forall (A : Type) (kids : list node) (g : node -> res (node * A)),
+  trak_co kids g = chain_by ACCESSOR_CHAIN_SRC kids (fun sk => stbl_co sk g)"""),
+    ("C05_box_types_are_source", """t_trak = TRAKS_ITEM_TYPE_SRC /\\ [t_mdia; t_minf; t_stbl] = ACCESSOR_CHAIN_SRC /\\
+  t_stco = BOXTYPE_StcoBox_SRC /\\ t_co64 = BOXTYPE_Co64Box_SRC /\\ t_moov = BOXTYPE_MoovBox_SRC /\\ t_ftyp = BOXTYPE_FtypBox_SRC"""),
+]
+REQUIRES_FOR = {"C05_dispatch_is_source": _DREQ, "C05_step_dispatch_is_source": _DREQ, "C05_dispatch_list": _DREQ,
+                "C05_accessor_chain_is_source": _BREQ, "C05_box_types_are_source": _BREQ}
 TRUSTED = fam.TRUSTED_COMMON + ["the arms of the top-level `match header.box_type()` (names per arm, the ftyp guard arm, the catch-all, in source order) are "
                                 "regenerated from mp4san/src/lib.rs on every run (Gen/Mp4Dispatch.v) and the model's step is proved to dispatch by that list "
                                 "(C05_dispatch_is_source)",
